@@ -30,6 +30,7 @@ ASSUMPTIONS = [
     "per-operation contracts compose to histories/schedules by induction (rely/guarantee): no operation writes local[t] for t != me — proved as a frame obligation on every operation",
     "interference: between any two lines of a manager method another thread may overwrite the shared default (havoc via sys.settrace)",
     "with-body of a context is havoc'd: arbitrary thread-local slot for `me` (and arbitrary shared default for the global flavour), which covers nested contexts",
+    "the ghost manager owns a private name cache, except in the 'name of the other manager' obligations, which look names up in whatever cache object the real class uses; that the two real managers own separate state objects is a structural obligation of its own",
 ]
 QUANTIFICATION = "forall threads, backends (uninterpreted sort), prior states of the thread-local map and shared default, interference schedules at line granularity, with-bodies; both managers; global and thread-local flavours"
 EXPLANATION = ("Real classmethods executed on a ghost manager with z3-valued state; obligations are validity queries (unsat of the negation). "
